@@ -78,9 +78,10 @@ pub fn load_filtered(bytes: &[u8], k: usize) -> lopdf::Result<Document> {
 }
 
 /// What the plain load of the file says about filter k: the facts for the model and the digest of the
-/// plain document restricted (or marked) accordingly.  `None` when the file holds a stream whose Length is
-/// a compressed object and the filter drops object streams (the restriction is then not the whole story).
-pub fn expectation(plain: &Document, k: usize) -> Option<Value> {
+/// plain document restricted (or marked) accordingly.  `deferred`: the plain load filled in streams late (hook H2,
+/// `observed_deferred_order` right after the plain load).  `None` when the file holds a stream whose Length is a compressed object and
+/// the filter drops object streams (the restriction is then not the whole story).
+pub fn expectation(plain: &Document, k: usize, deferred: bool) -> Option<Value> {
     let xr: Vec<(u32, u32)> = plain
         .reference_table
         .entries
@@ -94,17 +95,10 @@ pub fn expectation(plain: &Document, k: usize) -> Option<Value> {
     let containers: Vec<u32> = plain.objects.iter().filter(|(_, o)| is_objstm(o)).map(|(id, _)| id.0).collect();
     if k < DROPS.len() {
         set_drop(k);
-        if DROPS[k].2 {
-            let compressed_len = plain.objects.values().any(|o| match o {
-                Object::Stream(s) => match s.dict.get(b"Length") {
-                    Ok(Object::Reference(r)) => matches!(plain.reference_table.get(r.0), Some(XrefEntry::Compressed { .. })),
-                    _ => false,
-                },
-                _ => false,
-            });
-            if compressed_len {
-                return None;
-            }
+        // a deferred stream (hook H2: its Length is a compressed object, resolved from the loaded objects after the merge)
+        // stays empty when the filter drops the object stream that holds its Length: not the restriction of the plain load
+        if DROPS[k].2 && deferred {
+            return None;
         }
         let dropset: Vec<u32> = plain.objects.iter().filter(|(id, o)| drops(id.0, o)).map(|(id, _)| id.0).collect();
         let gone = |n: u32| dropset.contains(&n);
